@@ -162,6 +162,22 @@ func rootsOf(in *Input) (exprs []string, decls []*Decl) {
 	return
 }
 
+// tparamFields: generic struct -> fields of bare type-parameter type (see testProgram)
+func (in *Input) tparamFields() map[string][]string {
+	out := map[string][]string{}
+	for _, d := range in.Decls {
+		if d.Kind != DStruct || len(d.TParams) == 0 {
+			continue
+		}
+		for _, f := range d.Fields {
+			if f.K == KTParam {
+				out[d.Name] = append(out[d.Name], f.Name)
+			}
+		}
+	}
+	return out
+}
+
 func writeModule(in *Input, mod string) error {
 	if err := os.MkdirAll(filepath.Join(mod, "p"), 0o755); err != nil {
 		return err
@@ -229,7 +245,7 @@ func (prop) Run(raw json.RawMessage, scratch string) core.Result {
 	rootExprs, rootDecls := rootsOf(&in)
 	tdir := filepath.Join(mod, "cmd", "t")
 	_ = os.MkdirAll(tdir, 0o755)
-	_ = os.WriteFile(filepath.Join(tdir, "main.go"), []byte(testProgram(rootExprs, in.Seed, 6)), 0o644)
+	_ = os.WriteFile(filepath.Join(tdir, "main.go"), []byte(testProgram(rootExprs, in.Seed, 6, in.tparamFields())), 0o644)
 	rc, out, to := runCmd(mod, 240*time.Second, "go", "build", "-o", filepath.Join(mod, "t.exe"), "./cmd/t")
 	obs.Compiles = rc == 0 && !to && first == ""
 	if !obs.Compiles {
